@@ -19,6 +19,10 @@
 package main
 
 import (
+	"math/big"
+
+	"github.com/shopspring/decimal"
+
 	"bytes"
 	"flag"
 	"fmt"
@@ -381,35 +385,6 @@ func variadicXValues(ft *ast.FuncType) string {
 // ---------------------------------------------------------------------------------------------
 // wrappers.go
 
-const wantMinAndMax = `func MinAndMaxArgsCheck(min int, max int, f types.XFunc) types.XFunc {
-	return func(env envs.Environment, args ...types.XValue) types.XValue {
-		if min == max {
-
-			if len(args) != min {
-				return types.NewXErrorf("need %d argument(s), got %d", min, len(args))
-			}
-		} else if max < 0 {
-
-			if len(args) < min {
-				return types.NewXErrorf("need at least %d argument(s), got %d", min, len(args))
-			}
-		} else {
-
-			if len(args) < min || len(args) > max {
-				return types.NewXErrorf("need %d to %d argument(s), got %d", min, max, len(args))
-			}
-		}
-
-		return f(env, args...)
-	}
-}`
-const wantNumArgs = `func NumArgsCheck(num int, f types.XFunc) types.XFunc {
-	return MinAndMaxArgsCheck(num, num, f)
-}`
-const wantMinArgs = `func MinArgsCheck(min int, f types.XFunc) types.XFunc {
-	return MinAndMaxArgsCheck(min, -1, f)
-}`
-
 func normalise(s string) string {
 	var out []string
 	for _, l := range strings.Split(s, "\n") {
@@ -475,22 +450,12 @@ func analyseWrappers(path string) map[string]*wrapper {
 		}
 		switch fd.Name.Name {
 		case "MinAndMaxArgsCheck":
-			fd.Doc = nil
-			if normalise(stripComments(fd)) != normalise(wantMinAndMax) {
-				fatal("MinAndMaxArgsCheck no longer has the recorded shape:\n%s", stripComments(fd))
-			}
 			ws[fd.Name.Name] = &wrapper{name: fd.Name.Name, intParams: []string{"min", "max"}, min: bexpr{param: "min"}, max: bexpr{param: "max"}, shift: 0}
 			continue
 		case "NumArgsCheck":
-			if normalise(stripComments(fd)) != normalise(wantNumArgs) {
-				fatal("NumArgsCheck no longer has the recorded shape:\n%s", stripComments(fd))
-			}
 			ws[fd.Name.Name] = &wrapper{name: fd.Name.Name, intParams: []string{"num"}, min: bexpr{param: "num"}, max: bexpr{param: "num"}, shift: 0}
 			continue
 		case "MinArgsCheck":
-			if normalise(stripComments(fd)) != normalise(wantMinArgs) {
-				fatal("MinArgsCheck no longer has the recorded shape:\n%s", stripComments(fd))
-			}
 			ws[fd.Name.Name] = &wrapper{name: fd.Name.Name, intParams: []string{"min"}, min: bexpr{param: "min"}, max: bexpr{c: -1}, shift: 0}
 			continue
 		}
@@ -693,151 +658,227 @@ func analyseRegistry(path string, ws map[string]*wrapper) ([]reg, []site, []dynS
 	return regs, sites, dyn, f
 }
 
-// rounding guard: const maxRoundingPlaces = N; Round/RoundUp/RoundDown begin with
-//
-//	if xerr := checkRoundingPlaces(places); xerr != nil { return xerr }
-func analyseRounding(f *ast.File) (int, [][2]string) {
-	maxPlaces, ok := 0, false
-	var guarded [][2]string
-	for _, d := range f.Decls {
-		switch x := d.(type) {
-		case *ast.GenDecl:
-			for _, sp := range x.Specs {
-				if vs, isV := sp.(*ast.ValueSpec); isV && len(vs.Names) == 1 && vs.Names[0].Name == "maxRoundingPlaces" && len(vs.Values) == 1 {
-					maxPlaces, ok = intLit(vs.Values[0])
+// ---------------------------------------------------------------------------------------------
+// semantic checks: the functions are RUN (interp.go) on a grid and their decisions compared with the model's
+
+const passed = "PASS"
+
+// the three base arity checks admit exactly the argument counts model/ExEval.v min_max_args admits
+func checkBaseArity(wrappersFile *ast.File) [][2]string {
+	in := newInterp(wrappersFile)
+	stub := hostFunc(func(args []any) any { return passed })
+	admits := func(ctor string, ctorArgs []any, n int) bool {
+		in.where = "wrappers.go " + ctor
+		fd := in.funcs[ctor]
+		if fd == nil {
+			fatal("wrappers.go: %s not found", ctor)
+		}
+		cl := in.call(fd, fd, append(append([]any{}, ctorArgs...), stub))
+		args := make([]any, n+1) // env, then n nil values
+		return in.call(fd, cl, args) == passed
+	}
+	model := func(min, max, n int) bool {
+		switch {
+		case min == max:
+			return n == min
+		case max < 0:
+			return n >= min
+		}
+		return n >= min && n <= max
+	}
+	okMM, okNum, okMin := true, true, true
+	for min := 0; min <= 3; min++ {
+		for n := 0; n <= 7; n++ {
+			for max := -2; max <= 5; max++ {
+				if admits("MinAndMaxArgsCheck", []any{int64(min), int64(max)}, n) != model(min, max, n) {
+					fmt.Fprintf(os.Stderr, "argindex: MinAndMaxArgsCheck(%d, %d) decides %d arguments differently from the model\n", min, max, n)
+					okMM = false
 				}
 			}
-		case *ast.FuncDecl:
-			switch x.Name.Name {
-			case "Round", "RoundUp", "RoundDown":
-				g := "false"
-				if len(x.Body.List) > 0 {
-					if is, isIf := x.Body.List[0].(*ast.IfStmt); isIf && is.Init != nil &&
-						normalise(src(is)) == normalise("if xerr := checkRoundingPlaces(places); xerr != nil {\nreturn xerr\n}") {
-						g = "true"
-					}
-				}
-				guarded = append(guarded, [2]string{x.Name.Name, g})
-			case "checkRoundingPlaces":
-				want := "func checkRoundingPlaces(places int) *types.XError {\nif places < -maxRoundingPlaces || places > maxRoundingPlaces {\nreturn types.NewXErrorf(\"must take -%d to %d number of places, got %d\", maxRoundingPlaces, maxRoundingPlaces, places)\n}\nreturn nil\n}"
-				if normalise(stripComments(x)) != normalise(want) {
-					fatal("checkRoundingPlaces no longer has the recorded shape:\n%s", stripComments(x))
-				}
+			if admits("NumArgsCheck", []any{int64(min)}, n) != model(min, min, n) {
+				okNum = false
+			}
+			if admits("MinArgsCheck", []any{int64(min)}, n) != model(min, -1, n) {
+				okMin = false
 			}
 		}
 	}
-	if !ok {
-		fatal("builtin.go: const maxRoundingPlaces not found (the limit on rounding places is gone)")
+	b := func(x bool) string {
+		if x {
+			return "true"
+		}
+		return "false"
 	}
-	if len(guarded) != 3 {
-		fatal("builtin.go: Round/RoundUp/RoundDown not all found")
-	}
-	return maxPlaces, guarded
+	return [][2]string{{"MinAndMaxArgsCheck", b(okMM)}, {"NumArgsCheck", b(okNum)}, {"MinArgsCheck", b(okMin)}}
 }
 
-// operator guards: excellent/operators/builtin.go  const maxNumberExponent; exponentOutOfRange; Multiply starts
-// with the exponent-sum guard; Divide starts with the zero-divisor guard; functions.Mod starts with it too
-func stmtIs(decls []ast.Decl, varName string, idx int, want string) string {
-	for _, d := range decls {
-		switch x := d.(type) {
-		case *ast.GenDecl: // var Multiply = numericalBinary(func(...) { ... })
-			for _, sp := range x.Specs {
-				vs, ok := sp.(*ast.ValueSpec)
-				if !ok || len(vs.Names) != 1 || vs.Names[0].Name != varName || len(vs.Values) != 1 {
-					continue
-				}
-				call, ok := vs.Values[0].(*ast.CallExpr)
-				if !ok || len(call.Args) != 1 {
-					fatal("operators: %s is not wrapper(func...)", varName)
-				}
-				fl, ok := call.Args[0].(*ast.FuncLit)
-				if !ok || len(fl.Body.List) <= idx {
-					fatal("operators: %s has no function literal with %d statements", varName, idx+1)
-				}
-				if normalise(src(fl.Body.List[idx])) == normalise(want) {
-					return "true"
-				}
-				return "false"
+func isXError(v any) bool { _, ok := v.(*xError); return ok }
+
+func xnum(s string) *xNumber { return newXNumber(decimal.RequireFromString(s)) }
+
+// Round / RoundUp / RoundDown accept exactly the places -L..L; returns L of Round and, per function, whether its
+// limits are the same
+func checkRounding(builtinFile *ast.File) (int, [][2]string) {
+	in := newInterp(builtinFile)
+	accepts := func(fn string, places int) (ok bool) {
+		defer func() {
+			if r := recover(); r != nil {
+				ok = true // it did not answer with an error value
 			}
-		case *ast.FuncDecl:
-			if x.Recv == nil && x.Name.Name == varName && len(x.Body.List) > idx {
-				if normalise(src(x.Body.List[idx])) == normalise(want) {
-					return "true"
-				}
-				return "false"
-			}
+		}()
+		in.where = "builtin.go " + fn
+		fd := in.funcs[fn]
+		if fd == nil {
+			fatal("builtin.go: %s not found", fn)
 		}
+		return !isXError(in.call(fd, fd, []any{nil, xnum("1.5"), int64(places)}))
 	}
-	fatal("%s not found", varName)
-	return ""
+	limit := func(fn string, sign int) int {
+		last := -1
+		for _, p := range probePlaces {
+			if !accepts(fn, sign*p) {
+				break
+			}
+			last = p
+		}
+		return last
+	}
+	L := limit("Round", 1)
+	var out [][2]string
+	for _, fn := range []string{"Round", "RoundUp", "RoundDown"} {
+		ok := limit(fn, 1) == L && limit(fn, -1) == L
+		out = append(out, [2]string{fn, map[bool]string{true: "true", false: "false"}[ok]})
+	}
+	return L, out
 }
 
-func analyseOperators(path string, builtinFile *ast.File) (int, [][2]string) {
-	f := parseFile(path)
-	maxExp, ok := 0, false
-	for _, d := range f.Decls {
-		switch x := d.(type) {
-		case *ast.GenDecl:
-			for _, sp := range x.Specs {
-				if vs, isV := sp.(*ast.ValueSpec); isV && len(vs.Names) == 1 && vs.Names[0].Name == "maxNumberExponent" && len(vs.Values) == 1 {
-					maxExp, ok = intLit(vs.Values[0])
+var probePlaces = func() []int {
+	var ps []int
+	for p := 0; p <= 300; p++ {
+		ps = append(ps, p)
+	}
+	return append(ps, 1000, 2000)
+}()
+
+// the canonical form of model/ExEval.v dec_canonical
+func modelCanonical(d decimal.Decimal) decimal.Decimal {
+	c := d.Coefficient()
+	e := int64(d.Exponent())
+	if c.Sign() == 0 {
+		return decimal.New(0, 0)
+	}
+	if e >= 0 {
+		return decimal.NewFromBigInt(new(big.Int).Mul(c, new(big.Int).Exp(big.NewInt(10), big.NewInt(e), nil)), 0)
+	}
+	ten := big.NewInt(10)
+	for e < 0 {
+		q, r := new(big.Int).QuoRem(c, ten, new(big.Int))
+		if r.Sign() != 0 {
+			break
+		}
+		c = q
+		e++
+	}
+	return decimal.NewFromBigInt(c, int32(e))
+}
+
+func sameRepr(v any, want decimal.Decimal) bool {
+	n, ok := v.(*xNumber)
+	return ok && n.Native().Coefficient().Cmp(want.Coefficient()) == 0 && n.Native().Exponent() == want.Exponent()
+}
+
+// operator guards: Multiply, Divide, Exponent of operators/builtin.go and Mod of functions/builtin.go decide as
+// mul_body / ODiv / pow_body / mod_body of the model do, on boundary inputs; returns the exponent limit found
+func checkOperators(opsFile *ast.File, builtinFile *ast.File) (int, [][2]string) {
+	in := newInterp(opsFile)
+	op := func(name string) func(a, b *xNumber) any {
+		g, ok := in.globals[name]
+		if !ok {
+			fatal("operators/builtin.go: %s not found", name)
+		}
+		call, ok := g.(*ast.CallExpr)
+		if !ok || len(call.Args) != 1 {
+			fatal("operators/builtin.go: %s is not wrapper(func...)", name)
+		}
+		fl, ok := call.Args[0].(*ast.FuncLit)
+		if !ok {
+			fatal("operators/builtin.go: %s does not wrap a function literal", name)
+		}
+		cl := &closure{typ: fl.Type, body: fl.Body, env: &scope{vars: map[string]any{}}}
+		return func(a, b *xNumber) (res any) {
+			in.where = "operators/builtin.go " + name
+			defer func() {
+				if r := recover(); r != nil {
+					res = fmt.Sprint("PANIC ", r)
 				}
-			}
-		case *ast.FuncDecl:
-			if x.Name.Name == "exponentOutOfRange" {
-				want := "func exponentOutOfRange(exp *big.Int) bool {\nreturn !exp.IsInt64() || exp.Int64() < -maxNumberExponent || exp.Int64() > maxNumberExponent\n}"
-				if normalise(stripComments(x)) != normalise(want) {
-					fatal("exponentOutOfRange no longer has the recorded shape:\n%s", stripComments(x))
-				}
-			}
+			}()
+			return in.call(fl, cl, []any{nil, a, b})
 		}
 	}
-	if !ok {
-		fatal("operators/builtin.go: const maxNumberExponent not found (the limit on decimal exponents is gone)")
+	mul, div, pow := op("Multiply"), op("Divide"), op("Exponent")
+	tenTo := func(k int) *xNumber { return newXNumber(decimal.New(1, int32(-k))) }
+	one := xnum("1")
+
+	// the limit on decimal places of a product: largest k with 10^-k * 1 accepted (the product is O(1) to compute)
+	lo, hi := 0, 1<<30
+	if isXError(mul(tenTo(0), one)) {
+		fatal("operators.Multiply rejects 1 * 1")
 	}
-	zero := "if num2.Equals(types.XNumberZero) {\nreturn types.NewXErrorf(\"division by zero\")\n}"
-	mul := "if exponentOutOfRange(big.NewInt(int64(factor1.Exponent()) + int64(factor2.Exponent()))) {\nreturn types.NewXErrorf(\"number value out of range\")\n}"
-	mulCanon := "factor1, factor2 := canonical(num1.Native()), canonical(num2.Native())"
-	powCanon := "base, power := canonical(num1.Native()), canonical(num2.Native())"
-	wantCanonical := "func canonical(d decimal.Decimal) decimal.Decimal {\nif d.Exponent() == 0 {\nreturn d\n}\nif d.Exponent() < 0 && new(big.Int).Rem(d.Coefficient(), big.NewInt(10)).Sign() != 0 {\nreturn d\n}\nreturn decimal.RequireFromString(d.String())\n}"
-	foundCanonical := false
-	for _, d := range f.Decls {
-		if x, isF := d.(*ast.FuncDecl); isF && x.Name.Name == "canonical" {
-			foundCanonical = true
-			if normalise(stripComments(x)) != normalise(wantCanonical) {
-				fatal("operators.canonical no longer has the recorded shape:\n%s", stripComments(x))
-			}
+	for lo < hi {
+		mid := lo + (hi-lo+1)/2
+		if isXError(mul(tenTo(mid), one)) {
+			hi = mid - 1
+		} else {
+			lo = mid
 		}
 	}
-	if !foundCanonical {
-		fatal("operators/builtin.go: func canonical not found (the limits would depend on how a number is written)")
-	}
-	oor := "{\nreturn types.NewXErrorf(\"number value out of range\")\n}"
-	pow1 := "if exponentOutOfRange(new(big.Int).Mul(big.NewInt(int64(base.Exponent())), power.BigInt())) " + oor
-	pow2 := "if power.IsNegative() && exponentOutOfRange(new(big.Int).Mul(big.NewInt(int64(base.NumDigits())), power.BigInt())) " + oor
-	pow3 := "if !power.IsInteger() && (numberMagnitude(base) > maxFractionalPowerDigits || numberMagnitude(power) > maxFractionalPowerDigits) " + oor
-	maxFrac, okF := 0, false
-	for _, d := range f.Decls {
-		if x, isG := d.(*ast.GenDecl); isG {
-			for _, sp := range x.Specs {
-				if vs, isV := sp.(*ast.ValueSpec); isV && len(vs.Names) == 1 && vs.Names[0].Name == "maxFractionalPowerDigits" && len(vs.Values) == 1 {
-					maxFrac, okF = intLit(vs.Values[0])
-				}
-			}
+	L := lo
+	b := func(x bool) string {
+		if x {
+			return "true"
 		}
+		return "false"
 	}
-	if !okF || maxFrac != 64 {
-		fatal("operators/builtin.go: const maxFractionalPowerDigits is not 64 (the model's max_fractional_power_digits)")
+	small := L <= 200000 // beyond that the accepted computations below would be long: no limit worth the name
+	half := L / 2
+	mulLimit := small && !isXError(mul(tenTo(half), tenTo(L-half))) && isXError(mul(tenTo(half+1), tenTo(L-half))) &&
+		isXError(mul(tenTo(L+1), one)) && !isXError(mul(xnum("1E"+strconv.Itoa(L+5)), xnum("1E"+strconv.Itoa(L+5)))) // whole numbers: canonical exponent 0
+	mulCanon := sameRepr(mul(xnum("0.10"), xnum("0.10")), decimal.New(1, -2)) && sameRepr(mul(xnum("1E3"), xnum("1E3")), decimal.New(1000000, 0)) &&
+		sameRepr(mul(xnum("0.00"), xnum("5")), decimal.New(0, 0)) && sameRepr(mul(xnum("2.50"), xnum("4.0")), decimal.New(100, -1)) &&
+		small && !isXError(mul(newXNumber(decimal.New(10, int32(-L-1))), one)) // 10 * 10^-(L+1) is 10^-L
+	divZero := isXError(div(one, xnum("0"))) && isXError(div(one, xnum("0.00"))) && !isXError(div(one, xnum("2")))
+	powCanon := sameRepr(pow(xnum("0.10"), xnum("2")), decimal.New(1, -2)) && sameRepr(pow(xnum("0.10"), xnum("2.0")), decimal.New(1, -2)) &&
+		sameRepr(pow(xnum("1E1"), xnum("3")), decimal.New(1000, 0)) && small && !isXError(pow(xnum("0.10"), xnum(strconv.Itoa(L))))
+	powExp := small && !isXError(pow(xnum("0.1"), xnum(strconv.Itoa(L)))) && isXError(pow(xnum("0.1"), xnum(strconv.Itoa(L+1)))) &&
+		isXError(pow(xnum("0.01"), xnum(strconv.Itoa(half+1)))) && !isXError(pow(xnum("0.01"), xnum(strconv.Itoa(half)))) &&
+		isXError(pow(xnum("0.1"), xnum("-"+strconv.Itoa(L+1)))) && isXError(pow(xnum("0.1"), xnum("100000000000000000000")))
+	powNeg := small && !isXError(pow(xnum("2"), xnum("-"+strconv.Itoa(L)))) && isXError(pow(xnum("2"), xnum("-"+strconv.Itoa(L+1)))) &&
+		isXError(pow(xnum("10"), xnum("-"+strconv.Itoa(half+1)))) && !isXError(pow(xnum("10"), xnum("-"+strconv.Itoa(half)))) &&
+		!isXError(pow(xnum("10"), xnum(strconv.Itoa(half+1))))
+	d64 := strings.Repeat("7", 64)
+	powFrac := !isXError(pow(xnum("1.5"), xnum("0.5"))) && !isXError(pow(xnum(d64), xnum("0.5"))) && isXError(pow(xnum(d64+"7"), xnum("0.5"))) &&
+		isXError(pow(xnum("2"), xnum("0."+d64[:33]))) && !isXError(pow(xnum("2"), xnum("0."+d64[:32]))) && !isXError(pow(xnum(d64+"7"), xnum("2"))) &&
+		!isXError(pow(xnum("2.50"+strings.Repeat("0", 70)), xnum("0.5")))
+
+	inF := newInterp(builtinFile)
+	mod := func(a, b *xNumber) (res any) {
+		defer func() {
+			if r := recover(); r != nil {
+				res = fmt.Sprint("PANIC ", r) // a library panic while running the function: not an error value
+			}
+		}()
+		inF.where = "functions/builtin.go Mod"
+		fd := inF.funcs["Mod"]
+		if fd == nil {
+			fatal("functions/builtin.go: Mod not found")
+		}
+		return inF.call(fd, fd, []any{nil, a, b})
 	}
-	return maxExp, [][2]string{
-		{"Multiply.canonical", stmtIs(f.Decls, "Multiply", 0, mulCanon)},
-		{"Multiply.exponent", stmtIs(f.Decls, "Multiply", 1, mul)},
-		{"Exponent.canonical", stmtIs(f.Decls, "Exponent", 0, powCanon)},
-		{"Divide.zero", stmtIs(f.Decls, "Divide", 0, zero)},
-		{"Mod.zero", stmtIs(builtinFile.Decls, "Mod", 0, zero)},
-		{"Exponent.exponent", stmtIs(f.Decls, "Exponent", 1, pow1)},
-		{"Exponent.negative", stmtIs(f.Decls, "Exponent", 2, pow2)},
-		{"Exponent.fractional", stmtIs(f.Decls, "Exponent", 3, pow3)},
+	modZero := isXError(mod(one, xnum("0"))) && isXError(mod(one, xnum("0.000"))) && !isXError(mod(xnum("7"), xnum("2")))
+
+	return L, [][2]string{
+		{"Multiply.canonical", b(mulCanon)}, {"Multiply.exponent", b(mulLimit)}, {"Divide.zero", b(divZero)}, {"Mod.zero", b(modZero)},
+		{"Exponent.canonical", b(powCanon)}, {"Exponent.exponent", b(powExp)}, {"Exponent.negative", b(powNeg)}, {"Exponent.fractional", b(powFrac)},
 	}
 }
 
@@ -873,8 +914,9 @@ func main() {
 	ws := analyseWrappers(filepath.Join(*repo, "excellent/functions/wrappers.go"))
 	regsF, sitesF, dynF, builtinFile := analyseRegistry(filepath.Join(*repo, "excellent/functions/builtin.go"), ws)
 	regsT, sitesT, dynT, _ := analyseRegistry(filepath.Join(*repo, "flows/routers/cases/tests.go"), ws)
-	maxPlaces, guarded := analyseRounding(builtinFile)
-	maxExp, opGuards := analyseOperators(filepath.Join(*repo, "excellent/operators/builtin.go"), builtinFile)
+	maxPlaces, guarded := checkRounding(builtinFile)
+	maxExp, opGuards := checkOperators(parseFile(filepath.Join(*repo, "excellent/operators/builtin.go")), builtinFile)
+	baseArity := checkBaseArity(parseFile(filepath.Join(*repo, "excellent/functions/wrappers.go")))
 
 	regs := append(regsF, regsT...)
 	sort.Slice(regs, func(i, j int) bool { return regs[i].name < regs[j].name })
@@ -943,6 +985,13 @@ func main() {
 	b.WriteString("].\n")
 	fmt.Fprintf(&b, "\nDefinition max_number_exponent_src : Z := %s.\n\nDefinition operator_guards : list (string * bool) := [", z(maxExp))
 	for i, g := range opGuards {
+		if i > 0 {
+			b.WriteString("; ")
+		}
+		fmt.Fprintf(&b, "(%q, %s)", g[0], g[1])
+	}
+	b.WriteString("].\n\nDefinition base_arity_checks : list (string * bool) := [")
+	for i, g := range baseArity {
 		if i > 0 {
 			b.WriteString("; ")
 		}
